@@ -80,6 +80,11 @@ pub struct Req {
     pub reply_len: usize,
     pub handler_delay_ms: u32,
     pub fate: Verdict,
+    /// how the client that sends this request was obtained: 0 = `new` + `set_timeout`, 1 = a clone of a
+    /// configured client, 2 = a clone of a clone, 3 = `set_timeout(10 T)` replaced by `set_timeout(T)`
+    pub client_form: u8,
+    /// which sending method is used: 0 = `send`, 1 = `create_rpc_context().set_header(..).send`, 2 = `send_owned`
+    pub route: u8,
 }
 
 #[derive(Debug, Clone)]
@@ -109,6 +114,8 @@ fn gen_req(src: &mut Src, t: u64) -> Req {
         reply_len: *src.pick(&[0usize, 1, 100, 5_000, 70_000]),
         handler_delay_ms: if src.chance(1, 4) { around(src) as u32 } else { 0 },
         fate,
+        client_form: src.weighted(&[3, 3, 1, 1]) as u8,
+        route: src.weighted(&[3, 1, 1]) as u8,
     }
 }
 
@@ -147,18 +154,48 @@ impl Prop for Stalled {
             "client_timeout_ms": case.timeout_ms,
             "waves_of_concurrent_requests": case.waves.iter().map(|w| w.iter().map(|r| json!({
                 "payload_len": r.payload_len, "reply_len": r.reply_len, "handler_delay_ms": r.handler_delay_ms, "fate": format!("{:?}", r.fate),
+                "client": (["new+set_timeout", "clone", "clone of clone", "set_timeout twice"][r.client_form as usize]),
+                "route": (["send", "context+header send", "send_owned"][r.route as usize]),
             })).collect::<Vec<_>>()).collect::<Vec<_>>(),
         })
     }
 
     fn rule(&self) -> &'static str {
-        "1-3 waves of 1-4 concurrent requests from a real RpcClient with a timeout T in {0.5,2,5 s} to a real server \
+        "1-3 waves of 1-4 concurrent requests from a real RpcClient with a timeout T in {0.5,2,5 s} (obtained by new+set_timeout, \
+         by cloning a configured client once or twice, or by replacing an earlier timeout; sent with send, send_owned or a \
+         context with a header) to a real server \
          state over the in-process transport; per request a generated fate: deliver, reply head at once but body \
          stalled by d, request delayed by d, request dropped, reply dropped, duplicated, plus optional handler \
          delay, with d around 0, T/2, T-1, T, T+1, 2T, 10T; payload / reply sizes 0 B - 70 KB; oracle: every request \
          ends as Ok(reply carrying its own id and the digest of its own payload) or as a ConnectionError/Timeout \
          status, within T + 5 ms of simulated time; a request whose reply the client saw was executed by the handler; \
          no id is executed more often than it was delivered; non-trivial = a fault with d > 0 on a request"
+    }
+}
+
+/// The documented ways to end up with a client whose timeout is `t`.
+fn make_client(addr: SocketAddr, t: Duration, form: u8) -> RpcClient<Echo> {
+    let mut base = RpcClient::<Echo>::new(Channel::connect(addr));
+    match form {
+        0 => {
+            base.set_timeout(t);
+            base
+        },
+        1 => {
+            base.set_timeout(t);
+            base.clone()
+        },
+        2 => {
+            base.set_timeout(t);
+            let c = base.clone();
+            drop(base);
+            c.clone()
+        },
+        _ => {
+            base.set_timeout(t * 10);
+            base.set_timeout(t);
+            base
+        },
     }
 }
 
@@ -185,14 +222,24 @@ async fn run(case: &Case) -> Outcome {
             let id = next_id;
             next_id += 1;
             queue.borrow_mut().push_back(r.fate);
-            let mut client = RpcClient::<Echo>::new(Channel::connect(addr));
-            client.set_timeout(t);
+            let client = make_client(addr, t, r.client_form);
             let payload: Vec<u8> = (0..r.payload_len).map(|i| (i as u64 ^ id) as u8).collect();
             let msg = Ping { id, payload: payload.clone(), reply_len: r.reply_len as u32, handler_delay_ms: r.handler_delay_ms };
             let r = r.clone();
             futs.push(async move {
                 let started = tokio::time::Instant::now();
-                let res = client.send(&msg).await.map(|v| (v.id.value(), v.digest.value(), v.filler.len()));
+                let res = match r.route {
+                    0 => client.send(&msg).await,
+                    1 => {
+                        client
+                            .create_rpc_context()
+                            .set_header("x-verif", datacake_rpc::http::HeaderValue::from_static("1"))
+                            .send(&msg)
+                            .await
+                    },
+                    _ => client.send_owned(msg.clone()).await,
+                }
+                .map(|v| (v.id.value(), v.digest.value(), v.filler.len()));
                 (id, payload, r, res, started.elapsed())
             });
         }
